@@ -42,15 +42,29 @@ def base_of(t):
         return t
 
 
+def _len_of(b):
+    """('len', b), or its constant value for array literals: [v; N], [a, b, c], byte-string constants"""
+    if b[0] == 'repeat':
+        try:
+            return ('const', int(b[2]), 'usize')
+        except (TypeError, ValueError):
+            pass
+    if b[0] == 'agg' and b[1] == 'array':
+        return ('const', len(b[2]), 'usize')
+    if b[0] == 'const' and isinstance(b[1], tuple):
+        return ('const', len(b[1]), 'usize')
+    return ('len', b)
+
+
 def norm(t):
     """Rewrite len-like calls to ('len', base) and strip value-preserving plumbing, recursively."""
     if not isinstance(t, tuple) or not t:
         return t
     k = t[0]
     if k == 'call' and called(t[1], *LEN_FNS) and len(t[2]) == 1:
-        return ('len', norm(base_of(t[2][0])))
+        return _len_of(norm(base_of(t[2][0])))
     if k == 'len':
-        return ('len', norm(base_of(t[1])))
+        return _len_of(norm(base_of(t[1])))
     if k == 'bin':
         return ('bin', t[1], norm(t[2]), norm(t[3]))
     if k == 'cast':
